@@ -1119,3 +1119,428 @@ Proof.
   eexists. eexists. repeat split; try (vm_compute; reflexivity).
   intros H. destruct (H 1%nat 0%nat _ eq_refl) as [l E]. vm_compute in E. discriminate.
 Qed.
+
+(** * group metadata describe a true contiguous partition *)
+Definition unsome (l : larr) : list Z := map (fun o => match o with Some z => z | None => 0 end) l.
+Definition rle_expand (names lens : list Z) : list Z := flat_map (fun nl => repeat (fst nl) (Z.to_nat (snd nl))) (combine names lens).
+Fixpoint prefix_sums (acc : Z) (l : list Z) : list Z := match l with [] => [] | x :: t => acc :: prefix_sums (acc + x) t end.
+(** labels = name_0 repeated len_0 times ++ name_1 repeated len_1 times ++ ..., names strictly increasing, all
+    lengths positive, stix the running sums of the lengths, spix = stix + len *)
+Record partition_ok (labels names stix spix lens : list Z) : Prop := {
+  p_inc : StronglySorted Z.lt names;
+  p_len : length lens = length names;
+  p_pos : Forall (fun x => 0 < x) lens;
+  p_stix : stix = prefix_sums 0 lens;
+  p_spix : spix = map2 Z.add stix lens;
+  p_lab : labels = rle_expand names lens }.
+
+Fixpoint rle (l : list Z) : list (Z * Z) :=
+  match l with
+  | [] => []
+  | x :: t => match rle t with (y, c) :: r => if x =? y then (y, c + 1) :: r else (x, 1) :: (y, c) :: r | [] => [(x, 1)] end
+  end.
+Lemma rle_nil l : rle l = [] -> l = [].
+Proof. destruct l as [|x t]; [reflexivity|]. cbn. destruct (rle t) as [|[y c] r]; [discriminate|]. destruct (x =? y); discriminate. Qed.
+Lemma rle_hd x t : exists c r, rle (x :: t) = (x, c) :: r /\ 0 < c.
+Proof.
+  revert x; induction t as [|y t IH]; intros x; cbn; [exists 1, []; split; [reflexivity|lia]|].
+  destruct (IH y) as (c & r & E & Hc). cbn in E. rewrite E. destruct (x =? y) eqn:Exy.
+  - apply Z.eqb_eq in Exy. subst. exists (c + 1), r. split; [reflexivity|lia].
+  - exists 1, ((y, c) :: r). split; [reflexivity|lia].
+Qed.
+Lemma rle_pos l : Forall (fun x => 0 < x) (map snd (rle l)).
+Proof.
+  induction l as [|x t IH]; cbn; [constructor|]. destruct (rle t) as [|[y c] r]; cbn; [repeat constructor|].
+  cbn in IH. inversion IH; subst. destruct (x =? y); cbn; constructor; try lia; try assumption.
+Qed.
+Lemma rle_expand_rle l : rle_expand (map fst (rle l)) (map snd (rle l)) = l.
+Proof.
+  unfold rle_expand. induction l as [|x t IH]; cbn; [reflexivity|].
+  destruct (rle t) as [|[y c] r] eqn:E; cbn in *.
+  - apply rle_nil in E. now subst.
+  - pose proof (rle_pos t) as Hp. rewrite E in Hp. cbn in Hp. inversion Hp as [|? ? Hc Hr].
+    destruct (x =? y) eqn:Exy; cbn.
+    + apply Z.eqb_eq in Exy. subst x. rewrite <- IH. replace (Z.to_nat (c + 1)) with (S (Z.to_nat c)) by lia. reflexivity.
+    + now rewrite <- IH.
+Qed.
+Lemma rle_names_lb l x : Forall (fun y => x <= y) l -> Forall (fun y => x <= y) (map fst (rle l)).
+Proof.
+  induction l as [|a t IH]; intros H; cbn; [constructor|]. inversion H; subst. specialize (IH H3).
+  destruct (rle t) as [|[y c] r]; cbn in *; [repeat constructor; assumption|].
+  destruct (a =? y); cbn; [assumption|constructor; assumption].
+Qed.
+Lemma rle_sorted l : StronglySorted Z.le l -> StronglySorted Z.lt (map fst (rle l)).
+Proof.
+  induction 1 as [|x t HS IH Hx]; cbn; [constructor|].
+  destruct (rle t) as [|[y c] r] eqn:E; cbn in *; [repeat constructor|].
+  destruct (x =? y) eqn:Exy; cbn; [assumption|]. apply Z.eqb_neq in Exy.
+  pose proof (rle_names_lb t x Hx) as Hlb. rewrite E in Hlb. cbn in Hlb. inversion Hlb; subst.
+  inversion IH; subst. constructor; [assumption|]. constructor; [lia|].
+  eapply Forall_impl; [|exact H4]. cbn. intros. lia.
+Qed.
+
+(** np_unique on a sorted list is its run-length encoding *)
+Lemma zins_lt x y l : x < y -> zins x (y :: l) = x :: y :: l.
+Proof. intros H. cbn. apply Z.ltb_lt in H. now rewrite H. Qed.
+Lemma zins_eq x l : zins x (x :: l) = x :: l.
+Proof. cbn. now rewrite Z.ltb_irrefl, Z.eqb_refl. Qed.
+Lemma distinct_sorted_rle l : StronglySorted Z.le l -> distinct_sorted l = map fst (rle l).
+Proof.
+  induction 1 as [|x t HS IH Hx]; [reflexivity|].
+  change (distinct_sorted (x :: t)) with (zins x (distinct_sorted t)). rewrite IH. cbn [rle].
+  pose proof (rle_names_lb t x Hx) as Hlb.
+  destruct (rle t) as [|[y c] r] eqn:E; [reflexivity|]. cbn [map fst] in *. inversion Hlb as [|? ? Hxy _].
+  destruct (x =? y) eqn:Exy.
+  - apply Z.eqb_eq in Exy. subst x. cbn [map fst]. apply zins_eq.
+  - apply Z.eqb_neq in Exy. cbn [map fst]. apply zins_lt. cbn beta in Hxy. lia.
+Qed.
+Lemma count_if_cons (f : Z -> bool) x l : count_if f (x :: l) = (if f x then 1 else 0) + count_if f l.
+Proof. unfold count_if. cbn [filter]. destruct (f x); [cbn [length]; lia|lia]. Qed.
+Lemma count_zero n l : Forall (fun y => n < y) l -> count_if (Z.eqb n) l = 0.
+Proof.
+  induction 1 as [|y t Hy _ IH]; [reflexivity|]. rewrite count_if_cons, IH.
+  destruct (n =? y) eqn:E; [apply Z.eqb_eq in E; lia|reflexivity].
+Qed.
+Lemma hd_lb t y c r : StronglySorted Z.le t -> rle t = (y, c) :: r -> Forall (fun a => y <= a) t.
+Proof.
+  destruct t as [|a0 t']; [constructor|]. intros HS E. destruct (rle_hd a0 t') as (c0 & r0 & E0 & _). rewrite E in E0.
+  inversion E0; subst. inversion HS; subst. constructor; [lia|assumption].
+Qed.
+Lemma counts_rle l : StronglySorted Z.le l -> map (fun n => count_if (Z.eqb n) l) (map fst (rle l)) = map snd (rle l).
+Proof.
+  induction 1 as [|x t HS IH Hx]; [reflexivity|]. cbn [rle].
+  pose proof (rle_sorted t HS) as Hinc. pose proof (rle_names_lb t x Hx) as Hlb.
+  destruct (rle t) as [|[y c] r] eqn:E.
+  - apply rle_nil in E. subst t. cbn. rewrite count_if_cons, Z.eqb_refl. reflexivity.
+  - pose proof (hd_lb t y c r HS E) as Hty.
+    cbn [map fst snd] in *. inversion Hlb as [|? ? Hxy _]. inversion Hinc as [|? ? _ Hgt]. inversion IH as [[IH1 IH2]]. cbn beta in Hxy.
+    assert (Hr : map (fun n => count_if (Z.eqb n) (x :: t)) (map fst r) = map (fun n => count_if (Z.eqb n) t) (map fst r)).
+    { apply map_ext_in. intros n Hin. rewrite count_if_cons. rewrite Forall_forall in Hgt. specialize (Hgt n Hin).
+      destruct (n =? x) eqn:En; [apply Z.eqb_eq in En; lia|reflexivity]. }
+    destruct (x =? y) eqn:Exy.
+    + apply Z.eqb_eq in Exy. subst x. cbn [map fst snd]. rewrite count_if_cons, Z.eqb_refl, IH1, Hr, IH2. f_equal. lia.
+    + apply Z.eqb_neq in Exy. cbn [map fst snd]. rewrite !count_if_cons, Z.eqb_refl.
+      assert (Hyx : y =? x = false) by (apply Z.eqb_neq; lia). rewrite Hyx, IH1, Hr, IH2.
+      rewrite (count_zero x t); [reflexivity|]. eapply Forall_impl; [|exact Hty]. cbn. intros a1 Ha1. lia.
+Qed.
+Lemma firsts_rle l : StronglySorted Z.le l -> forall i, map (fun n => first_ix n l i) (map fst (rle l)) = prefix_sums i (map snd (rle l)).
+Proof.
+  induction 1 as [|x t HS IH Hx]; intros i; [reflexivity|]. cbn [rle].
+  pose proof (rle_sorted t HS) as Hinc. pose proof (rle_names_lb t x Hx) as Hlb. specialize (IH (i + 1)).
+  destruct (rle t) as [|[y c] r] eqn:E.
+  - cbn. now rewrite Z.eqb_refl.
+  - cbn [map fst snd] in *. inversion Hlb as [|? ? Hxy _]. inversion Hinc as [|? ? _ Hgt]. cbn beta in Hxy.
+    cbn [prefix_sums] in IH. injection IH as IH1 IH2.
+    assert (Hr : map (fun n => first_ix n (x :: t) i) (map fst r) = map (fun n => first_ix n t (i + 1)) (map fst r)).
+    { apply map_ext_in. intros n Hin. cbn. rewrite Forall_forall in Hgt. specialize (Hgt n Hin).
+      destruct (n =? x) eqn:En; [apply Z.eqb_eq in En; lia|reflexivity]. }
+    destruct (x =? y) eqn:Exy.
+    + apply Z.eqb_eq in Exy. subst x. cbn [map fst snd prefix_sums]. rewrite Hr, IH2. cbn [first_ix]. rewrite Z.eqb_refl.
+      f_equal. f_equal. lia.
+    + apply Z.eqb_neq in Exy. cbn [map fst snd prefix_sums]. rewrite Hr, IH2. cbn [first_ix]. rewrite Z.eqb_refl.
+      assert (Hyx : y =? x = false) by (apply Z.eqb_neq; lia). rewrite Hyx, IH1. reflexivity.
+Qed.
+
+Theorem unique_partition l : StronglySorted Z.le l ->
+  let '(nm, ix, ln) := np_unique l in partition_ok l nm ix (map2 Z.add ix ln) ln.
+Proof.
+  intros HS. unfold np_unique. rewrite (distinct_sorted_rle l HS), (counts_rle l HS), (firsts_rle l HS 0).
+  split.
+  - now apply rle_sorted.
+  - now rewrite !map_length.
+  - apply rle_pos.
+  - reflexivity.
+  - reflexivity.
+  - symmetry. apply rle_expand_rle.
+Qed.
+
+(** * lexsort: a permutation sorted by the primary (last) key *)
+Section ISort.
+Variable leb : nat -> nat -> bool.
+Hypothesis total : forall x y, leb x y = false -> leb y x = true.
+Let R := fun a b => leb a b = true.
+Lemma ins_sorted_perm x l : Permutation (ins_sorted leb x l) (x :: l).
+Proof.
+  induction l as [|y t IH]; cbn; [reflexivity|]. destruct (leb x y); [reflexivity|].
+  etransitivity; [apply perm_skip; exact IH|apply perm_swap].
+Qed.
+Lemma isort_perm l : Permutation (isort leb l) l.
+Proof.
+  induction l as [|x t IH]; cbn; [reflexivity|]. etransitivity; [apply ins_sorted_perm|]. now apply perm_skip.
+Qed.
+Lemma ins_sorted_HdRel y x t : R y x -> HdRel R y t -> HdRel R y (ins_sorted leb x t).
+Proof. intros Hyx Ht. destruct t as [|z t]; cbn; [now constructor|]. destruct (leb x z); constructor; [assumption|]. now inversion Ht. Qed.
+Lemma ins_sorted_Sorted x l : Sorted R l -> Sorted R (ins_sorted leb x l).
+Proof.
+  induction 1 as [|y t HS IH Hy]; cbn; [repeat constructor|].
+  destruct (leb x y) eqn:E.
+  - constructor; [constructor; assumption|]. constructor. exact E.
+  - constructor; [assumption|]. apply ins_sorted_HdRel; [apply total; exact E|assumption].
+Qed.
+Lemma isort_Sorted l : Sorted R (isort leb l).
+Proof. induction l as [|x t IH]; cbn; [constructor|]. now apply ins_sorted_Sorted. Qed.
+End ISort.
+
+Lemma lex_leb_total keys x y : lex_leb keys x y = false -> lex_leb keys y x = true.
+Proof.
+  induction keys as [|k r IH]; cbn; [discriminate|].
+  destruct (nth x k 0 <? nth y k 0) eqn:E1; [discriminate|]. destruct (nth y k 0 <? nth x k 0) eqn:E2; [reflexivity|]. exact IH.
+Qed.
+Lemma lex_leb_primary k r x y : lex_leb (k :: r) x y = true -> nth x k 0 <= nth y k 0.
+Proof.
+  cbn. destruct (nth x k 0 <? nth y k 0) eqn:E1; [apply Z.ltb_lt in E1; lia|].
+  destruct (nth y k 0 <? nth x k 0) eqn:E2; [discriminate|]. apply Z.ltb_ge in E1, E2. lia.
+Qed.
+Lemma Sorted_weaken {A} (R1 R2 : A -> A -> Prop) l : (forall a b, R1 a b -> R2 a b) -> Sorted R1 l -> Sorted R2 l.
+Proof.
+  intros H. induction 1 as [|x t HS IH Hx]; constructor; [assumption|].
+  destruct Hx; constructor. auto.
+Qed.
+Lemma Sorted_map {A B} (f : A -> B) (R : B -> B -> Prop) l : Sorted (fun a b => R (f a) (f b)) l -> Sorted R (map f l).
+Proof. induction 1 as [|x t HS IH Hx]; cbn; constructor; [assumption|]. destruct Hx; cbn; constructor. assumption. Qed.
+
+Lemma pick_as_map {A} (ps : list nat) (l : list A) d : Forall (fun p => (p < length l)%nat) ps -> pick ps l = map (fun p => nth p l d) ps.
+Proof.
+  unfold pick. induction 1 as [|p ps Hp _ IH]; cbn; [reflexivity|]. rewrite IH.
+  destruct (nth_error l p) eqn:E; [|apply nth_error_None in E; lia]. cbn. f_equal. symmetry. now apply nth_error_nth.
+Qed.
+Lemma mapM_id_unsome (l : larr) kv : mapM (fun o => o) l = Some kv -> kv = unsome l.
+Proof.
+  revert kv; induction l as [|o t IH]; cbn; intros kv H; [now inversion H|].
+  destruct o as [z|]; [|discriminate]. destruct (mapM (fun o => o) t) as [r|]; [|discriminate]. inversion H. cbn. f_equal. now apply IH.
+Qed.
+Lemma key_values_spec n l kv : key_values n l = Some kv -> length l = n /\ kv = unsome l.
+Proof.
+  unfold key_values. destruct (Nat.eqb (length l) n) eqn:E; [|discriminate]. apply Nat.eqb_eq in E. intros H. split; [assumption|].
+  destruct (Nat.leb n 1); [now inversion H|now apply mapM_id_unsome].
+Qed.
+Lemma mapM_app_inv {A B} (f : A -> option B) l1 l2 r : mapM f (l1 ++ l2) = Some r ->
+  exists r1 r2, mapM f l1 = Some r1 /\ mapM f l2 = Some r2 /\ r = r1 ++ r2.
+Proof.
+  revert r; induction l1 as [|x t IH]; cbn; intros r H; [exists [], r; auto|].
+  destruct (f x) as [y|]; [|discriminate]. destruct (mapM f (t ++ l2)) as [rr|] eqn:E; [|discriminate]. inversion H; subst.
+  destruct (IH rr eq_refl) as (r1 & r2 & H1 & H2 & ->). rewrite H1. exists (y :: r1), r2. auto.
+Qed.
+Lemma plan_take_of_nat n ps : Forall (fun p => (p < n)%nat) ps -> plan_take n (map Z.of_nat ps) = Some ps.
+Proof.
+  unfold plan_take. induction 1 as [|p ps Hp _ IH]; cbn; [reflexivity|]. rewrite IH. unfold norm.
+  replace (Z.of_nat p <? - Z.of_nat n) with false by (symmetry; apply Z.ltb_ge; lia).
+  replace (Z.of_nat n <=? Z.of_nat p) with false by (symmetry; apply Z.leb_gt; lia).
+  replace (Z.of_nat p <? 0) with false by (symmetry; apply Z.ltb_ge; lia). cbn. now rewrite Nat2Z.id.
+Qed.
+
+(** the group key is the last (= primary) default sort key of its axis kind *)
+Lemma grp_is_primary kd g : grp (schema_of kd) = Some g -> exists pre, skeys (schema_of kd) = pre ++ [g].
+Proof. destruct kd; cbn; intros [= <-]; [exists [0%nat]|exists [1%nat]]; reflexivity. Qed.
+
+(** after lexsort on keys whose last one is [l0], gathering [l0] by the returned indices gives a sorted list *)
+Lemma lexsort_sorts_primary n pre (l0 : larr) idx : lexsort n (pre ++ [l0]) = OK idx ->
+  exists ps, plan_take (length l0) idx = Some ps /\ StronglySorted Z.le (unsome (pick ps l0)) /\ Permutation ps (seq 0 n).
+Proof.
+  unfold lexsort. destruct (pre ++ [l0]) eqn:Ek; [destruct pre; discriminate|]. rewrite <- Ek. clear Ek.
+  destruct (mapM (key_values n) (pre ++ [l0])) as [ks|] eqn:E; [|discriminate]. intros [= <-].
+  destruct (mapM_app_inv _ _ _ _ E) as (r1 & r2 & H1 & H2 & ->). cbn in H2.
+  destruct (key_values n l0) as [kv0|] eqn:Ekv; [|discriminate]. inversion H2; subst r2.
+  destruct (key_values_spec n l0 kv0 Ekv) as [Hlen ->].
+  rewrite rev_app_distr. cbn [rev app].
+  set (K := unsome l0 :: rev r1). set (perm := isort (lex_leb K) (seq 0 n)).
+  assert (HP : Permutation perm (seq 0 n)) by apply isort_perm.
+  assert (Hlt : Forall (fun p => (p < n)%nat) perm).
+  { apply Forall_forall. intros p Hp. apply (Permutation_in _ HP) in Hp. apply in_seq in Hp. lia. }
+  pose proof Hlt as Hlt2. rewrite <- Hlen in Hlt2.
+  exists perm. split; [exact (plan_take_of_nat _ _ Hlt2)|]. split; [|assumption].
+  unfold unsome at 1. rewrite <- pick_map. fold (unsome l0).
+  rewrite (pick_as_map perm (unsome l0) 0) by (unfold unsome; rewrite map_length; exact Hlt2).
+  apply Sorted_StronglySorted; [intros a b c0; lia|]. apply Sorted_map.
+  eapply Sorted_weaken; [|apply (isort_Sorted (lex_leb K) (lex_leb_total K))].
+  intros a b H. now apply (lex_leb_primary (unsome l0) (rev r1)).
+Qed.
+
+(** * group: the metadata written by group_<axis> are a true partition of the group labels now on the axis *)
+Lemma mapM_omap_nth (f : larr -> option larr) L r g : mapM (omap f) L = Some r ->
+  nth g r None = match nth g L None with None => None | Some l0 => f l0 end.
+Proof.
+  revert r g; induction L as [|o L IH]; intros r g H; cbn in H.
+  - inversion H. destruct g; reflexivity.
+  - destruct (omap f o) as [o'|] eqn:Eo; [|discriminate]. destruct (mapM (omap f) L) as [rr|] eqn:Er; [|discriminate]. inversion H; subst r.
+    destruct g; cbn.
+    + destruct o as [l0|]; cbn in Eo; [|now inversion Eo]. destruct (f l0); inversion Eo; reflexivity.
+    + now apply IH.
+Qed.
+Lemma set_axes_length s k l : length (set_axes s k l) = length (axes s).
+Proof. unfold set_axes. apply length_map_indexed. Qed.
+Lemma ax_of_upd_ax s k f k' : (k' < length (axes s))%nat -> ax_of (upd_ax s k f) k' = if Nat.eqb k' k then f (ax_of s k') else ax_of s k'.
+Proof. intros H. unfold upd_ax, ax_of; cbn. rewrite (nth_map_indexed _ _ _ _ ax0) by assumption. reflexivity. Qed.
+
+Definition grouped_ok (a : axst) (g : nat) : Prop :=
+  match nth g (labs a) None with
+  | Some l => exists nm ix sp ln, m_name a = Some nm /\ m_stix a = Some ix /\ m_spix a = Some sp /\ m_len a = Some ln /\
+                                  partition_ok (unsome l) nm ix sp ln
+  | None => False
+  end.
+
+Theorem group_partition c s k s' g : (k < length (axes s))%nat -> grp (sch c k) = Some g -> op_group c s k = OK s' ->
+  grouped_ok (ax_of s' k) g \/ (nth g (labs (ax_of s' k)) None = None /\ is_grouped (ax_of s' k) = false).
+Proof.
+  intros Hk Hg H. unfold op_group in H. rewrite Hg in H.
+  destruct (op_sort c s k None) as [s1|] eqn:Es; [|discriminate]. cbn in H. inversion H; subst s'; clear H.
+  unfold op_sort in Es. destruct (op_lexsort c s k None) as [idx|] eqn:El; [|discriminate]. cbn in Es.
+  unfold op_reorder in Es. destruct (sortable (sch c k)) eqn:Esrt; [|discriminate].
+  destruct (un_data c s k _) as [[t sh]|]; [|discriminate]. destruct (un_labs s k (np_take idx)) as [l|] eqn:Elab; [|discriminate].
+  inversion Es; subst s1; clear Es.
+  rewrite ax_of_upd_ax by (cbn; now rewrite set_axes_length). rewrite Nat.eqb_refl.
+  rewrite ax_of_set_axes by assumption. rewrite Nat.eqb_refl.
+  unfold un_labs in Elab. pose proof (mapM_omap_nth (np_take idx) _ _ g Elab) as Hn.
+  unfold group_meta; cbn [labs]. rewrite Hn.
+  destruct (nth g (labs (ax_of s k)) None) as [l0|] eqn:E0; [|right; split; [exact Hn|reflexivity]].
+  (* the keys of the default sort end with the group array *)
+  unfold op_lexsort in El. rewrite Esrt in El. unfold sort_keys in El.
+  destruct (grp_is_primary (kind_of c k) g Hg) as [pre Hpre]. unfold sch in El. rewrite Hpre in El.
+  rewrite map_app, flat_map_app in El. cbn [map flat_map] in El. rewrite E0, app_nil_r in El.
+  destruct (lexsort_sorts_primary _ _ l0 idx El) as (ps & Hps & Hsorted & _).
+  unfold np_take. rewrite Hps. cbn [option_map].
+  left. unfold grouped_ok. cbn [labs m_name m_stix m_spix m_len].
+  pose proof (unique_partition (unsome (pick ps l0)) Hsorted) as HP. fold (unsome (pick ps l0)).
+  destruct (np_unique (unsome (pick ps l0))) as [[nm ix] ln]. cbn [labs m_name m_stix m_spix m_len].
+  unfold np_take in Hn. rewrite Hps in Hn. cbn in Hn. rewrite Hn.
+  exists nm, ix, (map2 Z.add ix ln), ln. repeat split; try reflexivity; apply HP.
+Qed.
+
+(** * invariant: whenever an axis reports itself grouped, its metadata are a true partition of its group labels *)
+Definition meta_ok (c : cls) (s : st) : Prop :=
+  forall k g, (k < length (axes s))%nat -> grp (sch c k) = Some g -> is_grouped (ax_of s k) = false \/ grouped_ok (ax_of s k) g.
+
+Lemma meta_ok_new c s k l sh t s' : construct c sh t (new_axes c s k l) = OK s' -> meta_ok c s -> meta_ok c s'.
+Proof.
+  intros Hc M. apply construct_ok in Hc. subst s'. intros k' g Hk' Hg. cbn in Hk'. unfold new_axes in Hk'. rewrite length_map_indexed in Hk'.
+  rewrite ax_of_new_axes by assumption. destruct (Nat.eqb k' k); [now left|].
+  destruct (drop_other c); [now left|]. now apply M.
+Qed.
+Lemma meta_ok_set c s k l sh t : meta_ok c s -> meta_ok c {| shape := sh; data := t; axes := set_axes s k l |}.
+Proof.
+  intros M k' g Hk' Hg. cbn in Hk'. rewrite set_axes_length in Hk'.
+  rewrite ax_of_set_axes by assumption. destruct (Nat.eqb k' k); [now left|]. now apply M.
+Qed.
+Lemma op_reorder_meta c s k idx s' : op_reorder c s k idx = OK s' -> meta_ok c s -> meta_ok c s'.
+Proof.
+  unfold op_reorder. destruct (sortable _); [|discriminate]. destruct (un_data _ _ _ _) as [[t sh]|]; [|discriminate].
+  destruct (un_labs _ _ _) as [l|]; [|discriminate]. intros [= <-]. apply meta_ok_set.
+Qed.
+Lemma op_reorder_axes c s k idx s' : op_reorder c s k idx = OK s' ->
+  length (axes s') = length (axes s) /\ forall k', (k' < length (axes s))%nat -> k' <> k -> ax_of s' k' = ax_of s k'.
+Proof.
+  unfold op_reorder. destruct (sortable _); [|discriminate]. destruct (un_data _ _ _ _) as [[t sh]|]; [|discriminate].
+  destruct (un_labs _ _ _) as [l|]; [|discriminate]. intros [= <-]. split; [cbn; apply set_axes_length|].
+  intros k' Hk' Hne. rewrite ax_of_set_axes by assumption. apply Nat.eqb_neq in Hne. now rewrite Hne.
+Qed.
+
+Theorem step_meta_inv c s k o s' : meta_ok c s -> step_k c s k o = OK s' -> meta_ok c s'.
+Proof.
+  intros M H. destruct o; cbn in H.
+  - unfold op_select in H. destruct (un_data _ _ _ _) as [[t sh]|]; [|discriminate]. destruct (un_labs _ _ _) as [l|]; [|discriminate].
+    eapply meta_ok_new; eauto.
+  - unfold op_delete in H. destruct (un_data _ _ _ _) as [[t sh]|]; [|discriminate]. destruct (un_labs _ _ _) as [l|]; [|discriminate].
+    eapply meta_ok_new; eauto.
+  - unfold op_insert in H. destruct (pre_binary _ _ _ _ _) as [gs|]; [|discriminate]. cbn in H.
+    destruct (np_insert_t _ _ _ _ _ _) as [[t sh]|]; [|discriminate]. destruct (join_labs _ _ _) as [l|]; [|discriminate].
+    eapply meta_ok_new; eauto.
+  - unfold op_adjoin in H. destruct (pre_binary _ _ _ _ _) as [gs|]; [|discriminate]. cbn in H.
+    destruct (join_labs _ _ _) as [l|]; [|discriminate]. destruct (cat_data _ _ _ _) as [t sh]. eapply meta_ok_new; eauto.
+  - unfold op_concat in H. destruct (forallb _ _); [|discriminate]. destruct (cat_fields _ _ _ _) as [l|]; [|discriminate]. cbn in H.
+    eapply meta_ok_new; eauto.
+  - unfold op_append in H. destruct (pre_binary _ _ _ _ _) as [gs|]; [|discriminate]. cbn in H.
+    destruct (join_labs_inplace _ _ _) as [l|]; [|discriminate]. destruct (cat_data _ _ _ _) as [t sh]. inversion H. now apply meta_ok_set.
+  - unfold op_remove in H. destruct (un_data _ _ _ _) as [[t sh]|]; [|discriminate]. destruct (un_labs _ _ _) as [l|]; [|discriminate].
+    inversion H. now apply meta_ok_set.
+  - unfold op_incorp in H. destruct (pre_binary _ _ _ _ _) as [gs|]; [|discriminate]. cbn in H.
+    destruct (np_insert_t _ _ _ _ _ _) as [[t sh]|]; [|discriminate]. destruct (join_labs_inplace _ _ _) as [l|]; [|discriminate].
+    inversion H. now apply meta_ok_set.
+  - eapply op_reorder_meta; eauto.
+  - destruct (sortable _); [|discriminate]. unfold op_sort in H. destruct (op_lexsort _ _ _ _) as [ix|]; [|discriminate]. cbn in H.
+    eapply op_reorder_meta; eauto.
+  - (* group *)
+    pose proof H as Hgrp. unfold op_group in H. destruct (grp (sch c k)) as [g0|] eqn:Eg; [|discriminate].
+    destruct (op_sort c s k None) as [s1|] eqn:Es; [|discriminate]. cbn in H. inversion H; subst s'; clear H.
+    unfold op_sort in Es. destruct (op_lexsort _ _ _ _) as [ix|]; [|discriminate]. cbn in Es.
+    destruct (op_reorder_axes _ _ _ _ _ Es) as [Hlen Hoth].
+    intros k' g Hk' Hg. cbn in Hk'. rewrite length_map_indexed in Hk'.
+    destruct (Nat.eq_dec k' k) as [->|Hne].
+    + rewrite Eg in Hg. inversion Hg; subst g0.
+      destruct (group_partition c s k _ g ltac:(lia) Eg Hgrp) as [HP|[_ HP]]; [now right|now left].
+    + rewrite ax_of_upd_ax by assumption. apply Nat.eqb_neq in Hne. rewrite Hne. apply Nat.eqb_neq in Hne.
+      rewrite Hoth by (try lia; assumption). apply M; [lia|assumption].
+  - unfold op_ungroup in H. destruct (grp (sch c k)); [|discriminate]. inversion H; subst s'.
+    intros k' g Hk' Hg. cbn in Hk'. rewrite length_map_indexed in Hk'. rewrite ax_of_upd_ax by assumption.
+    destruct (Nat.eqb k' k); [now left|now apply M].
+Qed.
+(** every matrix fresh from the constructor is ungrouped, hence satisfies the invariant *)
+Lemma meta_ok_fresh c s : (forall k, is_grouped (ax_of s k) = false) -> meta_ok c s.
+Proof. intros H k g _ _. left. apply H. Qed.
+(** for every history of public operations (any forms, any arguments): the invariant holds in every state reached *)
+Theorem history_meta_inv c : forall h s, meta_ok c s ->
+  Forall (fun x => meta_ok (fst (fst x)) (snd (fst x))) (fst (run c s (map (fun fo => HOp (fst fo) (snd fo)) h))).
+Proof.
+  induction h as [|[f o] h IH]; intros s M; cbn; [constructor|].
+  unfold step. destruct (dispatch c f) as [k|]; [|constructor].
+  destruct (step_k c s k o) as [s1|] eqn:E; [|constructor].
+  pose proof (step_meta_inv c s k o s1 M E) as M1. specialize (IH s1 M1).
+  destruct (run c s1 _) as [l e]. cbn in *. constructor; [exact M1|exact IH].
+Qed.
+
+(** * histories of selecting / deleting / removing / reordering / sorting / grouping / ungrouping (any class, any axis,
+      either form): every state reached is the image of entity lists drawn from the original ones *)
+Inductive uop := USelect (idx : list Z) | UDelete (o : objarg) | URemove (o : objarg) | UReorder (idx : list Z)
+               | USort (keys : option (list (option larr))) | UGroup | UUngroup.
+Definition opk_of (u : uop) : opk :=
+  match u with USelect i => Select i | UDelete o => Delete o | URemove o => Remove o | UReorder i => Reorder i
+             | USort k => Sort k | UGroup => Group | UUngroup => Ungroup end.
+Lemma dispatch_lt c f k : dispatch c f = Some k -> (k < length (axs c))%nat.
+Proof.
+  destruct f as [k0|axis]; unfold dispatch.
+  - destruct (Nat.ltb k0 (length (axs c))) eqn:E; [|discriminate]. intros [= <-]. now apply Nat.ltb_lt.
+  - destruct (get_axis axis (ndim c)); [|discriminate]. intros H. apply find_kind_bound in H. lia.
+Qed.
+
+Section History.
+Context {ent : Type}.
+Variable val : list ent -> Z.
+Variable lbl : nat -> nat -> ent -> lab.
+Definition sub (ess ess' : list (list ent)) : Prop := forall a x, In x (nth a ess' []) -> In x (nth a ess []).
+Lemma sub_refl ess : sub ess ess. Proof. intros a x H; exact H. Qed.
+Lemma sub_trans e1 e2 e3 : sub e1 e2 -> sub e2 e3 -> sub e1 e3. Proof. intros H1 H2 a x H. apply H1, H2, H. Qed.
+Lemma sub_upd_all c s k ess ps : wf_cls c -> Rep val lbl c s ess -> (k < length (axs c))%nat ->
+  sub ess (upd_all (taxes c k) (pick ps (nth (taxis c k) ess [])) ess).
+Proof.
+  intros W R Hk a x H. destruct (in_dec Nat.eq_dec a (taxes c k)) as [Hin|Hnin].
+  - rewrite nth_upd_all_in in H; [|assumption|rewrite (r_nd _ _ _ _ _ R); eapply wf_lt; eauto].
+    rewrite (r_sq _ _ _ _ _ R k a Hin). eapply In_pick; eauto.
+  - now rewrite nth_upd_all_notin in H.
+Qed.
+
+Lemma ustep_refines c s k u s' ess : wf_cls c -> Rep val lbl c s ess -> (k < length (axs c))%nat ->
+  step_k c s k (opk_of u) = OK s' -> exists ess', Rep val lbl c s' ess' /\ sub ess ess'.
+Proof.
+  intros W R Hk H. destruct u; cbn in H.
+  - destruct (select_refines val lbl c s k idx s' ess W R Hk H) as (ps & _ & HR & _). eexists; split; [exact HR|]. eapply sub_upd_all; eauto.
+  - destruct (delete_refines val lbl c s k o s' ess W R Hk H) as (ps & _ & HR & _). eexists; split; [exact HR|]. eapply sub_upd_all; eauto.
+  - destruct (remove_refines val lbl c s k o s' ess W R Hk H) as (ps & _ & HR & _). eexists; split; [exact HR|]. eapply sub_upd_all; eauto.
+  - destruct (reorder_refines val lbl c s k idx s' ess W R Hk H) as (ps & _ & HR & _). eexists; split; [exact HR|]. eapply sub_upd_all; eauto.
+  - destruct (sortable (sch c k)); [|discriminate].
+    destruct (sort_refines val lbl c s k keys s' ess W R Hk H) as (idx & ps & _ & _ & HR & _). eexists; split; [exact HR|]. eapply sub_upd_all; eauto.
+  - destruct (group_refines val lbl c s k s' ess W R Hk H) as (idx & ps & _ & _ & HR & _). eexists; split; [exact HR|]. eapply sub_upd_all; eauto.
+  - destruct (ungroup_refines val lbl c s k s' ess R H) as [HR _]. exists ess. split; [exact HR|apply sub_refl].
+Qed.
+
+Theorem history_refines c : wf_cls c -> forall (h : list (form * uop)) s ess, Rep val lbl c s ess ->
+  Forall (fun x => exists ess', Rep val lbl (fst (fst x)) (snd (fst x)) ess' /\ sub ess ess')
+         (fst (run c s (map (fun fu => HOp (fst fu) (opk_of (snd fu))) h))).
+Proof.
+  intros W. induction h as [|[f u] h IH]; intros s ess R; cbn; [constructor|].
+  unfold step. destruct (dispatch c f) as [k|] eqn:Ed; [|constructor].
+  destruct (step_k c s k (opk_of u)) as [s1|] eqn:E; [|constructor].
+  destruct (ustep_refines c s k u s1 ess W R (dispatch_lt _ _ _ Ed) E) as (ess1 & R1 & S1).
+  specialize (IH s1 ess1 R1). destruct (run c s1 _) as [l e]. cbn in *. constructor.
+  - exists ess1. auto.
+  - eapply Forall_impl; [|exact IH]. cbn. intros x (ess' & HR & HS). exists ess'. split; [assumption|]. eapply sub_trans; eauto.
+Qed.
+End History.
